@@ -595,3 +595,23 @@ def check_axisgen(model, R, P, kernel_quals):
                 R.ob(P + '.AXISGEN', q, norm(n), False, 'literal-axis extent of an array operand in an axis-generic kernel', _loc(f, n))
         if n_red == 0:
             R.ob(P + '.AXISGEN', q, 'no reduction found', False, 'an axis-taking kernel must reduce along its axis parameter', f.loc)
+
+
+def check_mean_divisor(model, R, P):
+    """mean_backward divides the broadcast gradient by the number of averaged elements"""
+    f = model.func('synapgrad.cpu_ops.mean_backward')
+    rets = [n for n in body_walk(f.node) if isinstance(n, ast.Return)]
+    ok = False
+    why = 'mean backward must return <broadcast gradient> / <number of averaged elements>'
+    if len(rets) == 1 and isinstance(rets[0].value, ast.BinOp) and isinstance(rets[0].value.op, ast.Div) and isinstance(rets[0].value.right, ast.Name):
+        d = rets[0].value.right.id
+        binds = [n for n in body_walk(f.node) if isinstance(n, ast.Assign) and norm(n.targets[0]) == d]
+        if len(binds) == 1:
+            v = binds[0].value
+            t = norm(v)
+            comp = [x for x in ast.walk(v) if isinstance(x, (ast.ListComp, ast.GeneratorExp))]
+            ok = isinstance(v, ast.Call) and norm(v.func) in ('np.prod', 'math.prod') and len(comp) == 1 and norm(comp[0].elt) == 'a_shape[i]' \
+                and len(comp[0].generators) == 1 and norm(comp[0].generators[0].iter) == 'range(len(a_shape))' \
+                and [norm(c) for c in comp[0].generators[0].ifs] == ['i in axis']
+            why = 'the divisor must be the product of the operand extents over the reduced axes (got %s)' % t[:80]
+    R.ob(P + '.REDUCE', f.qualname, 'divisor of mean_backward', ok, why, f.loc)
